@@ -2,7 +2,7 @@
 the converter list of every modelled command (plugins/User, plugins/Admin, plugins/Channel),
 the default capability sets (src/ircdb.py) and toBool's literals (src/utils/str.py)."""
 import ast
-from gen_tables import table, tree, find_class, find_def, need, cstr, clist
+from gen_tables import table, tree, find_class, find_def, module_assign, need, cstr, clist
 
 # (plugin file, class path inside the plugin class, command)
 COMMANDS = [
@@ -174,6 +174,23 @@ def gen_T02():
         fn = [n for n in ccap[0].body if isinstance(n, ast.FunctionDef) and n.name == name][0]
         need('users.getUser' not in ast.unparse(fn) and 'capabilities.add' not in ast.unparse(fn),
              'Channel.capability.%s touches capability sets outside the pinned statements' % name)
+    # ircutils.isUserHostmask: the only validation between `user hostmask add` / IrcUser.addHostmask and the hostmask
+    # line of users.conf.  The pattern is emitted; Coq compares it with the one the model (C16 is_user_hostmask) mirrors.
+    ut2 = tree('src/ircutils.py')
+    rx = module_assign(ut2, 'userHostmaskRe')
+    need(isinstance(rx, ast.Call) and ast.unparse(rx.func) == 're.compile' and len(rx.args) == 1 and not rx.keywords
+         and isinstance(rx.args[0], ast.Constant) and isinstance(rx.args[0].value, str), 'ircutils.userHostmaskRe is not re.compile(<literal>)')
+    hostmask_re = rx.args[0].value
+    iuh = find_def(ut2, 'isUserHostmask')
+    need([ast.unparse(b) for b in iuh.body if not (isinstance(b, ast.Expr) and isinstance(b.value, ast.Constant))]
+         == ['return userHostmaskRe.match(s) is not None'], 'ircutils.isUserHostmask changed')
+    ah = ' '.join(ast.unparse(find_def(d, 'addHostmask', 'IrcUser')).split())
+    need("assert ircutils.isUserHostmask(hostmask), 'got %s' % hostmask" in ah and 'self.hostmasks.add(hostmask)' in ah,
+         'IrcUser.addHostmask no longer asserts isUserHostmask before storing')
+    hadd = ' '.join(ast.unparse([n for n in [c for c in ucls.body if isinstance(c, ast.ClassDef) and c.name == 'hostmask'][0].body
+                                 if isinstance(n, ast.FunctionDef) and n.name == 'add'][0]).split())
+    need('if not ircutils.isUserHostmask(hostmask): irc.errorInvalid(' in hadd and hadd.index('if not ircutils.isUserHostmask(hostmask)') < hadd.index('user.addHostmask(hostmask)'),
+         'User.hostmask.add no longer refuses a non-hostmask before addHostmask')
     # IrcUser.checkPassword: an empty or missing password never authenticates (repair of C02.F44)
     cp = find_def(d, 'checkPassword', 'IrcUser')
     stmts = [n for n in cp.body if not (isinstance(n, ast.Expr) and isinstance(n.value, ast.Constant))]
@@ -207,6 +224,7 @@ def gen_T02():
     else:
         need(False, 'unpreserve.Reader.readFile: unknown way of opening the file: ' + ast.unparse(oc))
     out = 'Definition READER_LINESEPS : list N := %s.\n' % clist(str(c) for c in lineseps)
+    out += 'Definition USERHOSTMASK_RE : list N := %s.  (* %s *)\n' % (cstr(hostmask_re), hostmask_re.replace('*)', '* )'))
     out += 'Definition NAME_FORBIDDEN : list N := %s.\n' % clist(str(ord(c)) for c in forbidden)
     out += 'Definition SPECS : list (list N * list N) := %s.\n' % clist(
         '(%s, %s)' % (cstr(k), cstr(v)) for k, v in specs)
@@ -217,4 +235,4 @@ def gen_T02():
     out += 'Definition DEFAULT_FLAG : bool := %s.\n' % ('true' if flag else 'false')
     out += 'Definition BOOL_TRUE : list (list N) := %s.\n' % clist(cstr(x) for x in tups[0])
     out += 'Definition BOOL_FALSE : list (list N) := %s.\n' % clist(cstr(x) for x in tups[1])
-    return 'plugins/User/plugin.py, plugins/Admin/plugin.py, plugins/Channel/plugin.py, src/ircdb.py, src/utils/str.py, src/unpreserve.py', out
+    return 'plugins/User/plugin.py, plugins/Admin/plugin.py, plugins/Channel/plugin.py, src/ircdb.py, src/utils/str.py, src/unpreserve.py, src/ircutils.py', out
